@@ -13,7 +13,7 @@ import (
 var known = ev.Matcher[Case]{}
 
 const rule = "histories of 2-5 migration files after a fixed init file, each file = 1-3 schema evolution steps over a table model (add/drop table, add/drop plain column, add/drop VIRTUAL generated column, add/drop index, " +
-	"manual table rebuild omitting a column, manual rebuild keeping all columns, scratch table created and dropped in the same file, column added and dropped in the same file); each file is authored either by the real `atlas migrate diff` " +
+	"manual table rebuild omitting a column, manual rebuild keeping all columns, scratch table created and dropped in the same file, column added and dropped in the same file, pre-existing column dropped and re-added under the same name, pre-existing table dropped and re-created); each file is authored either by the real `atlas migrate diff` " +
 	"(Atlas' own SQL incl. its rebuild procedure) or as hand-written equivalent SQL; then `atlas migrate lint --dev-url sqlite://dev?mode=memory --latest N --format '{{ json . }}'` for every N. " +
 	"Oracle: per file in the window the multiset of DS1xx diagnostics (code, object) equals the model's (a table or non-virtual column that existed before the file disappears => DS102/DS103; nothing for additive, virtual, index or same-file temporary objects); " +
 	"each Pos lies inside the statement (or rebuild group) of that table; exit status non-zero iff the window holds a destructive file. " +
@@ -21,9 +21,11 @@ const rule = "histories of 2-5 migration files after a fixed init file, each fil
 
 var tables = []string{"base", "other", "t3", "t4"}
 var cols = []string{"a", "b", "c", "d", "g"}
-var kinds = []string{"add-table", "drop-table", "add-column", "drop-column", "add-virtual", "drop-virtual", "add-index", "drop-index", "rebuild-omit", "rebuild-keep", "temp-table", "temp-column", "drop-column", "add-column"}
+var kinds = []string{"add-table", "drop-table", "add-column", "drop-column", "add-virtual", "drop-virtual", "add-index", "drop-index", "rebuild-omit", "rebuild-keep", "temp-table", "temp-column", "drop-column", "add-column", "drop-readd-column", "drop-recreate-table"}
 
-func handOnly(k string) bool { return k == "rebuild-omit" || k == "rebuild-keep" || k == "temp-table" || k == "temp-column" }
+func handOnly(k string) bool {
+	return k == "rebuild-omit" || k == "rebuild-keep" || k == "temp-table" || k == "temp-column" || k == "drop-readd-column" || k == "drop-recreate-table"
+}
 
 func genCase(t *rapid.T) Case {
 	var c Case
